@@ -635,12 +635,55 @@ def two_strand_compare(ctx: Ctx, d, d2, mine, delta, r, r2):
                           dict(case, kind='two_strands', targeton_index=j))
 
 
+def pam_codon_design(rng) -> dict | None:
+    """A background substitution on another base of the codon of an applied PAM protection edit (accepted with --force-bg-ns whatever it does
+    to the protein): the consequence of the edit must be the one it has on the genome that already carries the substitution."""
+    from .. import codonspec
+    d = gen.gen_sge(rng, {'p_bg': 0.0, 'p_gtf': 1.0, 'p_pam': 1.0, 'p_custom': 0.0, 'p_table': 0.0, 'allow_junction_pam': False})
+    if not d.get('pam') or not d.get('gtf'):
+        return None
+    fr = codonspec.Frame(gen.exons_of(d), d['strand'])
+    U = d['ref'].upper()
+    t = d['targetons'][0]
+    cand = [e for e in d['pam'] if e['sgrna'] in (t.get('sgrna') or []) and t['ref_start'] <= e['pos'] <= t['ref_end'] and e['pos'] in fr.idx and fr.codon_positions(e['pos'])]
+    if not cand:
+        return None
+    e = rng.choice(cand)
+    cp = [q for q in fr.codon_positions(e['pos']) if q != e['pos'] and t['ref_start'] <= q <= t['ref_end'] and not any(x['pos'] == q for x in d['pam'])]
+    if not cp:
+        return None
+    q = rng.choice(cp)
+    d['bg'] = [{'pos': q, 'ref': U[q - 1], 'alts': [rng.choice([c for c in 'ACGT' if c != U[q - 1]])], 'id': 'bgc'}]
+    d['opts'] = dict(d['opts'], force_ns=True, force_fs=False)
+    return d
+
+
+def pam_codon_stage(ctx: Ctx):
+    import random
+    rng = random.Random(f'C06-pam-codon-{ctx.seed}')
+    triples = []
+    for _ in range(60 * ctx.n(12, 120)):
+        if len(triples) >= ctx.n(12, 120):
+            break
+        d = pam_codon_design(rng)
+        if d is None:
+            continue
+        lifted = bg.lift_design(d)
+        if lifted is not None:
+            triples.append((d, lifted[0], lifted[1]))
+    res = pool_map(run_pair, [(d, d2) for d, d2, L in triples], chunksize=2)
+    for (d, d2, L), (_, r, r2) in zip(triples, res):
+        ctx.count('designs_with_background_in_a_pam_codon')
+        compare(ctx, d, d2, L, r, r2)
+
+
 def run(ctx: Ctx):
     context_stage(ctx)
     files(ctx)
     lift_stage(ctx)
     lift_targeton_stage(ctx)
     two_strand_stage(ctx)
+    pam_codon_stage(ctx)
     return {'rule': 'Metamorphic on the real tool: random SGE designs with background SNV/MNV anywhere and non-coding insertions/deletions upstream of, inside and '
                     'downstream of the targetons (with BED masks, PAM edits, custom variants, 1-3 targetons) are run next to the same design on the pre-edited genome '
                     '(reference = splice of the unmasked variants, every coordinate lifted): rows must correspond one-to-one on all content columns except those touching '
